@@ -15,14 +15,13 @@ typed binds to (per slot class, DESIGN §4 C11); compile() says which continuati
 inspect.getdoc gives the docstring.  The index oracle is validated against upstream's
 hand-written table (test/test_api/test_call_signatures.py:_calls) before it is used.
 """
-import inspect
 import os
 
 from .. import boot, canon, pool
 from .. import c11_model as M
 
 ID = 'C11'
-BUDGET = {'quick': 300, 'thorough': 2400}
+BUDGET = {'quick': 900, 'thorough': 5400}
 
 _state = {'n': 0}
 
@@ -270,6 +269,7 @@ def _probe(script, line, col, oracle, pre, cur, exp_params, exp_bracket):
 
 
 CHEAP = ('fn', 'meth', 'umeth', 'sm', 'init')   # carriers whose fresh analysis costs ~3 ms
+BATCH = 150      # call lines per module in the `complete` variant
 
 
 def _work_index(task):
@@ -287,6 +287,8 @@ def _work_index(task):
     exp_params = [[p.name, p.kind.name] for p in ref.sig.parameters.values()]
     names = [p[1] for p in pl] + (['x'] if carrier == 'xw' else [])
     forms = M.arg_alphabet(names, tier)
+    if task.get('forms') == 'positional':
+        forms = [f for f in forms if f[0] == 'lit']
     callee = prog['callee']
     code = prog['code']
     line0 = code.count('\n') + 1
@@ -312,7 +314,13 @@ def _work_index(task):
             counts[cls] = counts.get(cls, 0) + 1
 
     texts = list(M.call_texts(forms, kmax))
-    module = code + ''.join('%s(%s)\n' % (callee, args) for args, _p, _k in texts)
+
+    def module_of(li):
+        # jedi gives up on a name after 300 inferences in one analysis (a documented limit, C15):
+        # at most BATCH call lines share a module.  -> (module text, line of call li in it)
+        lo = li - li % BATCH
+        return (code + ''.join('%s(%s)\n' % (callee, args) for args, _p, _k in texts[lo:lo + BATCH]),
+                line0 + li - lo)
 
     def standalone(args):
         return _script('%s%s(%s)\n' % (code, callee, args))
@@ -325,7 +333,8 @@ def _work_index(task):
                     continue
                 off, pre, cur = probes[0]
                 if only[2] == 'batch-only':
-                    res = probe(_script(module), line0 + li, off, pre, cur)
+                    mod, ln = module_of(li)
+                    res = probe(_script(mod), ln, off, pre, cur)
                 else:
                     res = probe(standalone(args), line0, off, pre, cur)
                 record(args + ')', None, res, only[2])
@@ -338,20 +347,24 @@ def _work_index(task):
                 elif args[off:] + ')' != only[1]:
                     continue
                 elif only[2] == 'batch-only':
-                    res = probe(_script(module), line0 + li, off, pre, cur)
+                    mod, ln = module_of(li)
+                    res = probe(_script(mod), ln, off, pre, cur)
                 else:
                     res = probe(standalone(args), line0, off, pre, cur)
                 record(only[0], only[1], res, only[2])
                 return {'fails': fails, 'evals': 1, 'cells': 1, 'counts': counts}
         return {'fails': fails, 'evals': 0, 'cells': 0, 'counts': counts}
 
-    script = _script(module)
+    script = None
     for li, (args, probes, _k) in enumerate(texts):
+        mod, ln = (None, line0 + li % BATCH) if li % BATCH else module_of(li)
+        if mod is not None:
+            script = _script(mod)
         results = []
         for off, pre, cur in probes:
             evals += 1
             cells += 1
-            results.append(probe(script, line0 + li, off, pre, cur))
+            results.append(probe(script, ln, off, pre, cur))
         bad = [r for r in results if r[0] is not None]
         if not bad:
             for r in results:
@@ -419,16 +432,26 @@ def _levels(tier):
             full = M.make_plist(sk, M.full_decoration(sk))
             for dec in M.decorations(sk):
                 pl = M.make_plist(sk, dec)
+                skeleton_level = pl == full or not any(p[2] or p[3] for p in pl)
                 carriers = ['fn']
-                if tier == 'thorough' or pl == full or not any(p[2] or p[3] for p in pl):
-                    carriers += others
+                if tier == 'quick':
+                    if skeleton_level:
+                        carriers += [c for c in others if c != 'cm' or pl != full or not pl]
+                else:
+                    carriers += ['meth', 'umeth', 'sm', 'init']
+                    if skeleton_level or len(pl) <= 3:
+                        carriers += ['wraps', 'pw', 'xw']
+                    if skeleton_level:
+                        carriers += ['cm']        # 0.7 s per analysed program
                 tasks.append({'id': 'def:' + M.plist_id(pl), 'pl': pl, 'carriers': carriers,
                               'doc': plain_keys[k % len(plain_keys)]})
                 k += 1
     tasks.sort(key=lambda t: -len(t['carriers']))
     lv.append(('definitions(<=%d params x default x annotation; %s)'
-               % (nmax, 'all 9 carriers' if tier == 'thorough' else
-                  'function on every list, 9 carriers on every kind skeleton plain + decorated'),
+               % (nmax, 'fn/meth/umeth/sm/init on every list, wrappers on every list of <=3, '
+                  'classmethod on every kind skeleton plain + decorated' if tier == 'thorough' else
+                  'function on every list, 9 carriers on every kind skeleton plain + decorated '
+                  '(classmethod: plain)'),
                'jv.props.c11:_work_definitions', tasks))
     # 2. every docstring layout x every carrier on three lists
     tasks = []
@@ -453,26 +476,40 @@ def _levels(tier):
                         continue
                     cheap = carrier in CHEAP
                     if tier == 'quick':
-                        if not cheap and vi:
-                            continue      # wrappers / classmethod: plain lists only
+                        if carrier != 'fn' and vi:
+                            continue      # decorated lists: function only
                         if carrier == 'cm' and len(pl) > 2:
                             continue      # (0.3 s per analysed call)
-                        kmax = 2 if cheap else 1
+                        kmax = 2 if carrier in ('fn', 'meth', 'init') else 1
                         tmax = (2 if carrier == 'fn' else 1) if (
                             vi == 0 and cheap) else 0
                     else:
-                        kmax = (3 if vi == 0 else 2) if cheap else 2
-                        tmax = ((3 if carrier == 'fn' else 2) if vi == 0 else 1) if cheap else 1
+                        if not cheap and vi:
+                            continue      # wrappers / classmethod: plain lists only
+                        if carrier == 'cm' and len(pl) > 3:
+                            continue
+                        if cheap:
+                            kmax = 3 if vi == 0 and (carrier == 'fn' or (
+                                carrier in ('meth', 'init') and len(pl) <= 3)) else 2
+                            tmax = ((3 if (carrier == 'fn' and len(pl) <= 3) else 2)
+                                    if vi == 0 else 1)
+                        else:
+                            kmax = 2 if (carrier != 'cm' and len(pl) <= 3) else 1
+                            tmax = 1
                     tasks.append({'id': 'idx:%s:%s' % (carrier, M.plist_id(pl)),
                                   'carrier': carrier, 'pl': pl, 'tier': tier, 'kmax': kmax,
                                   'tmax': tmax})
     # big tasks first so that the pool's tail is short
     tasks.sort(key=lambda t: (-t['kmax'], -t['tmax'], -len(t['pl'])))
     lv.append(('index cells(<=%d params, plain + fully decorated, 9 carriers; %s)'
-               % (nmax, 'calls of <=2 arguments, text cut at the cursor for plain lists on '
-                  'fn/meth/umeth/sm/init' if tier == 'quick' else
-                  'calls of <=3 (plain) / <=2 arguments; text cut at the cursor: <=3 arguments fn, '
-                  '<=2 meth/umeth/sm/init, <=1 otherwise'),
+               % (nmax, 'function: plain + decorated lists, calls of <=2 arguments; other carriers: '
+                  'plain lists, calls of <=2 (meth, init) / <=1 arguments; text cut at the cursor '
+                  'on plain lists: <=2 arguments fn, <=1 meth/umeth/sm/init' if tier == 'quick' else
+                  'plain lists: calls of <=3 arguments on fn (meth, init: <=3 params), <=2 on '
+                  'umeth/sm and on wraps/pw/xw with <=3 params, <=1 on cm (<=3 params) and wrappers '
+                  'with 4 params; decorated lists: fn/meth/umeth/sm/init, calls of <=2; text cut at '
+                  'the cursor: <=3 arguments fn (<=3 params), <=2 plain lists on the 5 cheap '
+                  'carriers, <=1 otherwise'),
                'jv.props.c11:_work_index', tasks))
     if tier == 'thorough':
         tasks = []
@@ -483,6 +520,14 @@ def _levels(tier):
                               'tier': 'quick', 'kmax': 2, 'tmax': 2})
         lv.append(('index cells(kind skeletons of 5-6 params, function, calls of <=2 arguments)',
                    'jv.props.c11:_work_index', tasks))
+        tasks = []
+        for n in range(0, 7):
+            for sk in M.skeletons(n):
+                pl = M.make_plist(sk)
+                tasks.append({'id': 'idx5:fn:' + M.plist_id(pl), 'carrier': 'fn', 'pl': pl,
+                              'tier': 'quick', 'kmax': 5, 'tmax': 5, 'forms': 'positional'})
+        lv.append(('index cells(kind skeletons of <=6 params, function, purely positional calls '
+                   'of <=5 arguments)', 'jv.props.c11:_work_index', tasks))
     return lv
 
 
@@ -600,7 +645,7 @@ def replay(case):
     _init()
     t = dict(case['task'])
     fn = case['fn'].split(':')[1]
-    if fn == '_work_index':
+    if fn == '_work_index' and case.get('what'):
         what = case['what']
         head, _, rest = what.partition('|')
         callee_before, mark, after = rest.partition('^')
@@ -610,6 +655,6 @@ def replay(case):
         t['only'] = [before, after, case.get('mode', 'complete')]
         r = _work_index(t)
     else:
-        r = _work_definitions(t)
+        r = globals()[fn](t)
     return [(f['site'], f['what'], f['detail']) for f in r['fails']
-            if f['what'] == case['what']]
+            if case.get('what') is None or f['what'] == case['what']]
